@@ -454,3 +454,41 @@ Proof.
     + intros [<-|[H1 H2]]; [left; reflexivity|right]. split; [exact H1|]. intros ->. apply H2. reflexivity.
     + intros [->|[H1 H2]]; [left; reflexivity|right]. split; [exact H1|]. intros He. apply H2. apply (inv_id_eq s); auto.
 Qed.
+
+(* ---------- a pass that stops early left nothing ready ---------- *)
+Lemma exhausted_left_nothing_ready s :
+  ready s = [] ->
+  forall t, In t (txs s) ->
+    match aget (tsender t) (sched s) with
+    | Some last => last = U64MAX \/ tseq t <> last + 1
+    | None => aget (tsender t) (senders s) <> Some (tseq t)
+    end.
+Proof.
+  intros Hr t Ht.
+  assert (is_ready s t = false) as Hn.
+  { destruct (is_ready s t) eqn:E; [|reflexivity].
+    assert (In t (ready s)) as Hin by (unfold ready; apply filter_In; auto).
+    rewrite Hr in Hin. contradiction. }
+  pose proof (ready_meaning s t) as Hm.
+  destruct (aget (tsender t) (sched s)) as [last|].
+  - destruct (N.eq_dec last U64MAX) as [->|Hne]; [left; reflexivity|]. right.
+    intros Hs. assert (is_ready s t = true) by (apply Hm; auto). congruence.
+  - intros Hs. assert (is_ready s t = true) by (apply Hm; auto). congruence.
+Qed.
+
+(* the queue-level operations of main_queue.go are compositions of scheduler
+   operations, so every theorem over operation sequences covers them *)
+Definition q_add (t : tx) (stateSeq evict : N) : list op := [OForward (tsender t) stateSeq; OAdd t stateSeq evict].
+Definition q_schedule (lim : N) (picks : list N) : list op := [OReset; OSchedule lim picks].
+Definition q_schedule_extra (lim : N) (picks : list N) : list op := [OSchedule lim picks].
+Definition q_used (ids : list N) : list op := map OUsed ids.
+
+Lemma q_ops_ok t q e lim picks ids :
+  tseq t <= U64MAX ->
+  Forall op_ok (q_add t q e ++ q_schedule lim picks ++ q_schedule_extra lim picks ++ q_used ids).
+Proof.
+  intros H. apply Forall_app. split; [repeat constructor; exact H|].
+  apply Forall_app. split; [repeat constructor|].
+  apply Forall_app. split; [repeat constructor|].
+  unfold q_used. induction ids as [|i r IH]; cbn; constructor; [exact I|exact IH].
+Qed.
